@@ -70,6 +70,10 @@ pub fn run(case: &Value) -> Value {
     for t in case["types"].as_array().unwrap() {
         let t = t.as_str().unwrap();
         let f = dir.path().join(format!("out_{}", t.replace('+', "plus")));
+        // "stale_output": the output path already holds an older, longer report (a rerun into the same file)
+        if case["stale_output"].as_bool().unwrap_or(false) && t != "html" {
+            std::fs::write(&f, "STALE LINE OF AN OLDER REPORT\n".repeat(40000)).unwrap();
+        }
         let r = std::panic::catch_unwind(std::panic::AssertUnwindSafe(|| one(t, &f, &results, &html_results, precision, branch, demangle)));
         match r {
             Ok(Some(v)) => {
